@@ -299,11 +299,11 @@ PROPS = {
     },
     "C14": {
         "proofs": ["ZlProofs.Props.C14"],
-        "corr": ["codec"],
+        "corr": ["codec", "jsonstr"],
         "search": [],
         "trusted_base": TB_COMMON,
-        "assumptions": ["A-JSON: encoding/json's string escaping and invalid-UTF-8 replacement (validated per byte by the harness oracle, abstracted as `sanitize` in the theorem)"],
-        "partial": "the JSON string codec itself is not modelled",
+        "assumptions": ["A-JSON: encoding/json's string codec is as modelled in ZlModel/JsonString.lean (appendString, scanner + unquoteBytes; Go 1.23) — validated by the jsonstr correspondence on every short string over 26 boundary bytes, random strings and hand-made literals; object/array framing of encoding/json is not modelled"],
+        "partial": "the JSON string codec is modelled and its round trip proved (details_roundtrip); the framing of objects and maps by encoding/json is assumed",
     },
 }
 
@@ -365,7 +365,7 @@ CLAIMS = {
             "text": "listed_name_selectable / unknown_name_rejected follow from C08's filter_error_iff; every source the registry lists is in the regenerated FromString and UnmarshalJSON case lists (decide); SourceList.FromString's loop is characterised (accept iff all values known; unknown rejected). Exhaustive run over every listed name and source through the real API.",
             "note": "CLI plumbing of the same options belongs to C15."},
     "C14": {"technique": "Lean 4 kernel evaluation over regenerated label tables + codec correspondence + JSON round trips",
-            "text": "labels_injective, status_roundtrip, unknown_label_rejected, out_of_range_not_decodable, struct-tag facts and listing_one_line_per_lint; result_roundtrip_partial with the JSON string codec abstracted. Tie: MarshalJSON/UnmarshalJSON of statuses and sources vs the model; real result sets with hostile details round-tripped (per-byte U+FFFD oracle); WriteJSON decoded line by line.",
+            "text": "details_roundtrip: encoding/json's string codec is modelled byte for byte (quote with and without HTML escaping, scanner + unquote incl. surrogate pairs) and unquote (quote s) = sanitize s is proved for every byte string — details come back exactly, up to U+FFFD for bytes that are not UTF-8; labels_injective, status_roundtrip, unknown_label_rejected, out_of_range_not_decodable, struct-tag facts and listing_one_line_per_lint; result_roundtrip_partial with the JSON string codec abstracted. Tie: MarshalJSON/UnmarshalJSON of statuses and sources vs the model; real result sets with hostile details round-tripped (per-byte U+FFFD oracle); WriteJSON decoded line by line.",
             "note": "Partial: encoding/json itself is assumed (A-JSON) and validated, not modelled."},
     "C16": {"technique": "Lean 4 proofs over Nat (bit length, divisibility, Fermat soundness and completeness) + boundary correspondence",
             "text": "Each of the thirteen predicates is proved equivalent to its arithmetic meaning for all N, e; modSmallFactor_iff uses kernel-checked coverage of 2..751 by the regenerated prime table; fermat_sound (p*q = n) and fermat_complete for all n and round counts. Tie: kit certificates with chosen (N, e) at every boundary through the real framework, factorisations compared.",
